@@ -9,7 +9,9 @@ two-owner sequences in which a second instance is CONSTRUCTED with the live cont
 (`b = Cls(f=a.f)`) and both fields are written afterwards; and populations in which several DISTINCT objects
 compare equal (schema V, a Symbol dataclass with value equality) used in every operation on list and set fields,
 also through an alias; and slice assignment `a.f[i:j] = value` with arbitrary bounds (empty, inverted, negative,
-open ended), a replacement of any length, given as list / tuple or as a one-shot iterable. Observation: the contents of the field(s) (list order and
+open ended), a replacement of any length, given as list / tuple or as a one-shot iterable; and histories with
+short-lived elements (removed from the field, forgotten by the program - they die -, NEW elements created at the
+freed addresses and written by every write path). Observation: the contents of the field(s) (list order and
 repetitions significant for list fields, sets sorted) and the set of relation triples in the SymbolGraph
 (owner-specific)."""
 from __future__ import annotations
@@ -156,6 +158,8 @@ def _fmt(op) -> str:
         return f"({k} {op[1]} {op[2]})"
     if k == "assignSelf":
         return "(assignSelf)"
+    if k in ("drop", "fresh"):
+        return f"({k} {op[1]})"
     if k == "setslice":
         b = lambda v: "-" if v is None else str(v)
         return f"(setslice {b(op[1])} {b(op[2])} {op[3]}{''.join(' ' + str(x) for x in op[4])})"
@@ -247,6 +251,86 @@ def _line(d: dict, n_obj: int, f: int, a: int, init, ops, keys=None) -> str:
             f"(ops {' '.join(_fmt(o) for o in ops)}))")
 
 
+def _recycle(rng, i: int) -> Case:
+    """short-lived elements: rounds of (write elements by any write path; remove some by item / slice assignment, a
+    new collection or a filtering view; the program forgets the removed elements, which die; NEW elements are created
+    - CPython gives them the freed addresses - and written in the next round). Fields without a super-property field
+    on the same object, so that nothing else keeps a removed element alive."""
+    d = _desc("L")
+    f = rng.choice([1, 2, 4, 5])
+    is_set = d["kinds"][f] == "set"
+    a = 0
+    n_total = rng.randint(3, 5)
+    pool = list(range(1, n_total))
+    cur: List[int] = []
+    ops = []
+
+    def emit(op):
+        nonlocal cur
+        ops.append(op)
+        cur = _asis_step(cur, op, is_set)
+
+    def write():
+        xs = [rng.choice(pool) for _ in range(rng.randint(1, 3))]
+        if is_set:
+            k = rng.choice(["add", "update", "iadd", "iaddAlias", "assign", "assignView"])
+        else:
+            k = rng.choice(["append", "extend", "iadd", "iaddAlias", "assign", "assignView", "insert", "setslice",
+                            "setitem"])
+        lit = list(dict.fromkeys(xs)) if is_set else xs
+        if k in ("append", "add"):
+            emit((k, xs[0]))
+        elif k in ("extend", "update"):
+            emit((k, xs))
+        elif k in ("iadd", "iaddAlias", "assign"):
+            emit((k, lit))
+        elif k == "assignView":
+            emit((k, "chain", xs))
+        elif k == "insert":
+            emit((k, rng.randint(-len(cur) - 1, len(cur) + 1), xs[0]))
+        elif k == "setslice":
+            b = lambda: None if rng.random() < 0.3 else rng.randint(-len(cur) - 1, len(cur) + 1)
+            emit((k, b(), b(), "L", xs))
+        elif k == "setitem":
+            if cur:
+                emit((k, rng.randint(-len(cur), len(cur) - 1), xs[0]))
+            else:
+                emit(("append", xs[0]))
+
+    def remove():
+        if not cur:
+            return
+        if is_set:
+            k = rng.choice(["assign", "filt"])
+        else:
+            k = rng.choice(["assign", "filt", "setslice", "setitem"])
+        if k == "assign":
+            emit(("assign", [x for x in dict.fromkeys(cur) if rng.random() < 0.3]))
+        elif k == "filt":
+            emit(("assignView", "filt", sorted({x for x in cur if rng.random() < 0.4})))
+        elif k == "setslice":
+            emit(("setslice", rng.randint(0, len(cur) - 1), None, "L", []))
+        else:
+            emit(("setitem", rng.randint(-len(cur), len(cur) - 1), rng.choice(pool)))
+
+    for _ in range(rng.randint(2, 4)):
+        for _ in range(rng.randint(1, 3)):
+            write()
+        remove()
+        gone = [x for x in pool if x not in cur]
+        rng.shuffle(gone)
+        for x in gone[: rng.randint(1, 3)]:
+            pool.remove(x)
+            ops.append(("drop", x))
+            ops.append(("fresh", n_total))
+            pool.append(n_total)
+            n_total += 1
+    for _ in range(rng.randint(1, 3)):
+        write()
+    tags = ("recycled-elements", "set-field" if is_set else "list-field") + tuple(sorted({"op-" + o[0] for o in ops}))
+    return Case(_line(d, n_total, f, a, [], ops), tags, "random")
+
+
 def _value_equal(rng, i: int) -> Case:
     """a population in which several DISTINCT objects compare equal (schema V): lists keep them all by identity,
     sets keep the first, and every one of them that is added gets its own relation"""
@@ -321,6 +405,8 @@ def generate(rng, tier, n):
         cases.append(_two_owner(rng, d, i))
     for i in range(max(60, n // 3)):
         cases.append(_value_equal(rng, i))
+    for i in range(max(60, n // 3)):
+        cases.append(_recycle(rng, i))
     return cases
 
 
@@ -363,6 +449,8 @@ def shrink(case: Case):
     ops = re.findall(r"\([^()]*\)", m.group(2))
     for i in range(len(ops)):
         rest = ops[:i] + ops[i + 1:]
+        if ops[i].startswith("(fresh"):
+            continue  # the element is used later: keep its creation
         if rest and not any(o.startswith("(setitem") for o in rest[i:]):
             yield Case(f"{head}(init{''.join(' ' + x for x in init)}) (ops {' '.join(rest)}))", case.tags, "shrink")
     for i in range(len(init)):
